@@ -52,6 +52,11 @@ def render(ast, rng=None, extra_parens: float = 0.0, parent: str = "top") -> str
     kind = ast[0]
     if kind == "id":
         text = ast[1]
+        # redundant parentheses around a lone identifier (never as the whole content of cds(...): that is a single
+        # identifier, which the grammar refuses there)
+        if rng is not None and extra_parens and parent not in ("cds", "not") and rng.random() < extra_parens / 3:
+            text = "(" * rng.choice([1, 1, 2]) + text
+            text += ")" * text.count("(")
     elif kind == "min":
         text = f"minimum({ast[1]}, [{', '.join(ast[2])}])"
     elif kind == "score":
@@ -61,8 +66,14 @@ def render(ast, rng=None, extra_parens: float = 0.0, parent: str = "top") -> str
     elif kind == "not":
         inner = ast[1]
         if inner[0] in ("id", "cds", "min", "score"):
-            return "not " + render(inner, rng, 0.0, "not")
-        return "not (" + render(inner, rng, extra_parens, "group") + ")"
+            text = "not " + render(inner, rng, 0.0, "not")
+            if rng is not None and extra_parens and parent != "cds" and rng.random() < extra_parens / 3:
+                text = "(" + text + ")"        # redundant parentheses around a negation, e.g. not ((not c))
+            return text
+        text = render(inner, rng, extra_parens, "group")
+        if rng is not None and extra_parens and rng.random() < extra_parens / 3:
+            text = "(" + text + ")"            # doubled parentheses of a negated group
+        return "not (" + text + ")"
     elif kind == "and":
         parts = []
         for x in ast[1]:
